@@ -42,7 +42,7 @@ CLAIMED = {
         'probabilistic components of the Model interface (initial, transition, observation, end) - this found that viterbi '
         'ignored end_prob (likelihood < Viterbi probability for models with end probabilities), fixed in /repo; (SB-4) within every '
         'Model impl the four accessors read pairwise distinct parameter tables and index them with the method parameters in '
-        'declaration order. Equality with the path-sum/path-max definition and NaN freedom are NOT decided.',
+        'declaration order; (OR-1) in viterbi no end_prob is applied after the arg-max/traceback has been taken (the reported path must be optimal for the reported score); (GD-8b) LogProb::ln_sum_exp drops a term only for being the maximum or exact ln(0). Equality with the path-sum/path-max definition and NaN freedom are NOT decided.',
    note='Trusted: rustc MIR, extractor, call graph incl. closures. A component that is called but combined wrongly is not detected.',
    technique='static analysis: sibling/interface-coverage rule over the call graph of type-checked MIR',
    ref='DESIGN.md section 2, C14'),
@@ -51,7 +51,7 @@ CLAIMED = {
         'over / compared with / subtracted from the field usable_bits_per_block only, never a literal word size - found the '
         '(bit..32) defect for widths 3,5,6,7, fixed in /repo; (SB-5) new and with_capacity initialise all fields identically and '
         'assert the same limit, SmallInts push/set/real_value use the same strict threshold against S::max_value(); (GD-7) '
-        'BitEnc::get addresses storage only behind i < len and returns None otherwise, clear resets storage and len. '
+        'BitEnc::get addresses storage only behind i < len and returns None otherwise, clear resets storage and len; (MK-1) every caller-supplied value widened into a storage word is masked with self.mask first in push, set and push_values - found push_values storing unmasked values, fixed in /repo. '
         'Observational equivalence with Vec over all histories and Fenwick trees are NOT decided.',
    note='Trusted: rustc MIR, extractor. Rules are necessary conditions; the packing arithmetic itself is not verified.',
    technique='static analysis: unit/belief-consistency and sibling-agreement rules over rustc MIR data flow',
@@ -61,7 +61,7 @@ CLAIMED = {
         'RankTransform::qgrams - found |A|.pow(q) sizing that panics for alphabets whose size is not a power of two, fixed in '
         '/repo; (SB-6) qgrams, rev_qgrams and get_width compute bits per symbol with the same expression and assert the same '
         'word-size bound; (TS-8) the vectors returned by find_kmer_matches_seq1_hashed and expand_kmer_matches, and the event '
-        'vectors of lcskpp/sdpkpp, pass through sort after their last push before being returned/read. Exactness of matches and '
+        'vectors of lcskpp/sdpkpp, pass through sort after their last push before being returned/read; (PO-6) every panic obligation of qgram_matches/matches/exact_matches is discharged or audited - found the usize diagonal p - i that panics in debug builds, fixed in /repo. Exactness of matches and '
         'optimality of chains are NOT decided.',
    note='Trusted: rustc MIR, extractor. find_kmer_matches_seq2_hashed is deliberately exempt from TS-8 (its pushes are already in order).',
    technique='static analysis: data-flow provenance of allocation sizes, sibling agreement, must-pass-through (typestate) on the CFG',
@@ -95,7 +95,7 @@ CLAIMED = {
         'and -ln10/10 within 2 ulp, are mutually inverse, and every From impl between LogProb/PHREDProb/Prob uses the factor or '
         'base-10 formula of its direction; (GD-5) Prob::checked builds Ok only on the edge of (0.0..=1.0).contains(&p); (GD-8) in '
         'ln_add_exp/ln_sum_exp/ln_sub_exp the difference of two log-probabilities is only formed behind an `== ln_zero()` guard '
-        '(no -inf - -inf = NaN). Every accuracy bound of the fast exponential is NOT decided (no static f64 error analysis in reach).',
+        '(no -inf - -inf = NaN); (GD-8b) ln_sum_exp drops terms only for being the maximum or exact ln(0) and ln_sub_exp compares with the default relative tolerance; (TB-10) the evaluated constants of the fast exponential satisfy MIN_VAL * ONEBYLOG2 + OFFSET_F64 >= 1 and MIN_VAL <= -40 (cut-off inside the domain of the bit trick and below the accuracy threshold). Every accuracy bound of the fast exponential is NOT decided (no static f64 error analysis in reach).',
    note='Trusted: rustc const evaluation, MIR, extractor.',
    technique='static analysis: evaluated-constant checks and guard dominance over rustc MIR',
    ref='DESIGN.md section 2, C15'),
@@ -113,7 +113,7 @@ CLAIMED = {
         '(identity pre-fill, the two pair literals, store shapes t[a]=b and t[a+32]=b+32 recognised in the MIR, anything else fails '
         'closed) and checked to be involutions that preserve case, fix non-letters and pair A-T/U, C-G; complement() is a plain '
         'lookup and revcomp = rev . map(complement), hence revcomp(revcomp(x)) = x. (TB-8) gc content counts exactly {C,G,c,g} and '
-        'gc_content/gc3_content use steps 1/3. ORF soundness/completeness and alphabet rank bijection are NOT decided.',
+        'gc_content/gc3_content use steps 1/3. (TS-10) in the ORF finder every path from a stop codon to the next symbol empties the pending start positions of that frame. ORF soundness/completeness and alphabet rank bijection are NOT decided.',
    note='Trusted: rustc MIR constants, extractor, and that the recognised store shapes are the only writes to the table (checked: any other store fails closed).',
    technique='static analysis: table reconstruction from MIR literals + exhaustive finite check',
    ref='DESIGN.md section 2, C20'),
@@ -146,7 +146,7 @@ CLAIMED = {
    ref='DESIGN.md section 2, C12'),
 
  'C04': dict(level='other',
-   text='Clauses decided: (SB-10) writer/reader agreement of the sampled Occ table - Occ::new pushes a checkpoint for row i exactly when i % k == 0, after counting bwt[i], with k the stored field; Occ::get combines checkpoint r / k with a byte count over (q*k, r] (added) and, in the k > 64 look-ahead branch, checkpoint q + 1 with a count over (r, (q+1)*k] (subtracted); ranges and checkpoint indices are compared as polynomials in r, k and q = r / k, so algebraic rewrites are accepted and off-by-one changes are not; (GD-9) bwt() takes text[p-1] on p > 0 and text[n-1] otherwise. Exactness of less/prescan, invert_bwt and of the counts themselves over all texts is NOT decided.',
+   text='Clauses decided: (SB-10) writer/reader agreement of the sampled Occ table - Occ::new pushes a checkpoint for row i exactly when i % k == 0, after counting bwt[i], with k the stored field; Occ::get combines checkpoint r / k with a byte count over (q*k, r] (added) and, in the k > 64 look-ahead branch, checkpoint q + 1 with a count over (r, (q+1)*k] (subtracted); ranges and checkpoint indices are compared as polynomials in r, k and q = r / k, so algebraic rewrites are accepted and off-by-one changes are not; (GD-9) bwt() takes text[p-1] on p > 0 and text[n-1] otherwise; (EF-9) bwtfind is built by the stable counting sort, no unstable sort is reachable from it. Exactness of less/prescan, invert_bwt and of the counts themselves over all texts is NOT decided.',
    note='Trusted: rustc MIR, extractor, expression reconstruction and the polynomial normaliser (rules/poly.py); bytecount::count counts occurrences in the given slice.',
    technique='static analysis: writer/reader agreement with symbolic (polynomial) normalisation of index arithmetic over rustc MIR',
    ref='DESIGN.md section 2, C04'),
@@ -157,7 +157,7 @@ CLAIMED = {
         'before the LF step; l := less(a) + (occ(l - 1, a) on the edge l > 0, else 0) and r := less(a) + occ(r, a) - 1, compared as '
         'polynomials so algebraic rewrites are accepted; an empty interval (l > r) clears the complete flag and leaves the loop '
         'without counting the symbol, otherwise matched += 1; the result is Complete{l, r + 1} / Partial({pl, pr + 1}, matched) / '
-        'Absent selected by (matched > 0, complete); Interval::occ enumerates exactly lower..upper through the suffix array. '
+        'Absent selected by (matched > 0, complete); the search loop iterates exactly pattern.iter().rev() (no take/skip/step adapters); Interval::occ enumerates exactly lower..upper through the suffix array; the sampled suffix array that resolves positions satisfies SB-7 of C03 incl. sentinel taken from the text. '
         'Exactness of the interval for every text/pattern (which rests on Occ/less being exact) is NOT decided; the ownership clause '
         '(owned/borrowed/Arc components) holds by parametricity of the single blanket impl.',
    note='Trusted: rustc MIR, extractor, expression reconstruction and polynomial normaliser.',
